@@ -104,28 +104,43 @@ fn port_in_use_by_model(ep: &str, model: &BTreeSet<String>) -> bool {
 
 /// Is `ep` refused *by the socket under test*? Ephemeral ports are recycled by the OS
 /// and other cases/processes bind concurrently, so a successful OS-level connect proves
-/// nothing by itself: our socket's monitor tells whether it was our listener that
-/// accepted (a connection closed at once yields an accept failure event).
-async fn refused_by_our_socket(ep: &str, mon: &mut futures::channel::mpsc::Receiver<zeromq::SocketEvent>) -> Result<(bool, bool), String> {
+/// nothing by itself, and neither does "some accept event" on our monitor (a stalled
+/// client of an earlier step that gives up produces one at an arbitrary later moment).
+/// The probe therefore completes a handshake under an identity nobody else uses and
+/// is attributed to our socket only by the `Accepted` event that carries that identity.
+async fn refused_by_our_socket(ep: &str, ty: &str, mon: &mut futures::channel::mpsc::Receiver<zeromq::SocketEvent>) -> Result<(bool, bool), String> {
     use futures::StreamExt;
+    static PROBE: std::sync::atomic::AtomicU64 = std::sync::atomic::AtomicU64::new(0);
     #[allow(deprecated)]
     while let Ok(Some(_)) = mon.try_next() {}
-    match rig::connect_refused(ep).await? {
-        true => Ok((true, false)),
-        false => {
-            // somebody accepted; was it us?
-            let deadline = std::time::Instant::now() + Duration::from_millis(500);
-            while std::time::Instant::now() < deadline {
-                match tokio::time::timeout(Duration::from_millis(50), mon.next()).await {
-                    Ok(Some(zeromq::SocketEvent::Accepted(..))) | Ok(Some(zeromq::SocketEvent::AcceptFailed(_))) => return Ok((false, false)),
-                    Ok(Some(_)) => continue,
-                    Ok(None) => break,
-                    Err(_) => continue,
-                }
+    let mut raw = match tokio::time::timeout(WAIT, Raw::connect(ep)).await {
+        Err(_) => return Err("connect attempt timed out".into()),
+        Ok(Ok(r)) => r,
+        Ok(Err(e)) => {
+            return match e.kind() {
+                std::io::ErrorKind::ConnectionRefused | std::io::ErrorKind::NotFound => Ok((true, false)),
+                // reset out of a backlog: nobody admitted it
+                std::io::ErrorKind::ConnectionReset | std::io::ErrorKind::ConnectionAborted => Ok((true, true)),
+                _ => Err(format!("unexpected connect error {e}")),
             }
-            Ok((true, true)) // a foreign listener on a recycled port
+        }
+    };
+    let nonce = mix(PROBE.fetch_add(1, std::sync::atomic::Ordering::SeqCst) ^ ((std::process::id() as u64) << 32) ^ hash_str(ep));
+    let id = format!("probe-{nonce:016x}").into_bytes();
+    match tokio::time::timeout(Duration::from_secs(2), raw.handshake(peer_type_for(ty), Some(&id))).await {
+        Ok(Ok(_)) => {}
+        _ => return Ok((true, true)), // whoever accepted it did not admit it
+    }
+    let deadline = std::time::Instant::now() + Duration::from_millis(1000);
+    while std::time::Instant::now() < deadline {
+        match tokio::time::timeout(Duration::from_millis(50), mon.next()).await {
+            Ok(Some(zeromq::SocketEvent::Accepted(_, pid))) if pid.as_ref() == &id[..] => return Ok((false, false)),
+            Ok(Some(_)) => continue,
+            Ok(None) => break,
+            Err(_) => continue,
         }
     }
+    Ok((true, true)) // a foreign listener on a recycled port
 }
 
 async fn sequence(ty: &str, len: usize, seed: u64) -> (Vec<(String, String)>, Vec<String>, Vec<(String, u64)>, Vec<String>) {
@@ -240,7 +255,7 @@ async fn sequence(ty: &str, len: usize, seed: u64) -> (Vec<(String, String)>, Ve
                             if port_in_use_by_model(&ep, &model) {
                                 count!("unbind_probe_skipped_port_reused");
                             } else {
-                                match refused_by_our_socket(&ep, &mut mon).await {
+                                match refused_by_our_socket(&ep, ty, &mut mon).await {
                                     Ok((true, foreign)) => {
                                         if foreign {
                                             count!("probes_answered_by_a_foreign_listener");
@@ -401,7 +416,7 @@ async fn sequence(ty: &str, len: usize, seed: u64) -> (Vec<(String, String)>, Ve
         if step % 4 == 3 {
             for ep in &removed {
                 if !port_in_use_by_model(ep, &model) {
-                    match refused_by_our_socket(ep, &mut mon).await {
+                    match refused_by_our_socket(ep, ty, &mut mon).await {
                         Ok((false, _)) => {
                             viol.push(("C18/unbound-endpoint-accepts-again".into(), format!("{ep} is accepted by the socket although it was unbound")));
                             break 'ops;
